@@ -300,8 +300,10 @@ impl LogState {
                                     if let Some((_, loglock, _)) = info.as_mut() {
                                         loglock.unlock()?;
                                     }
-                                    let new_t = mydir.join(RedoPath::from_str(g.text())?);
-                                    let got = self.catlog(ps, matches, show_status, &new_t)?;
+                                    // Recurse under the normalized name: that is
+                                    // the one `already` knows the target by.
+                                    let new_t = RedoPath::from_str(&fixname)?;
+                                    let got = self.catlog(ps, matches, show_status, new_t)?;
                                     interrupted += got;
                                     lines_written += got;
                                     if let Some((_, loglock, _)) = info.as_mut() {
@@ -327,8 +329,11 @@ impl LogState {
                                 if let Some((_, loglock, _)) = info.as_mut() {
                                     loglock.unlock()?;
                                 }
-                                let new_t = mydir.join(RedoPath::from_str(g.text())?);
-                                let got = self.catlog(ps, matches, show_status, &new_t)?;
+                                // Recurse under the normalized name: that is the
+                                // one `already` knows the target by ("sub/../x"
+                                // would show the log of "x" a second time).
+                                let new_t = RedoPath::from_str(&fixname)?;
+                                let got = self.catlog(ps, matches, show_status, new_t)?;
                                 interrupted += got;
                                 lines_written += got;
                                 if let Some((_, loglock, _)) = info.as_mut() {
